@@ -709,7 +709,104 @@ def gen_queue_prog(rng):
     return {'init': init, 'bodies': bodies}
 
 
+def fence_strengths(ctx, lib):
+    """strength of the library's barrier functions as compiled: 'full' if the code contains a serialising
+    instruction (xchg with memory, mfence, or a lock-prefixed instruction), else 'none' (compiler barrier only)"""
+    src = os.path.join(ctx.work, 'fence_stub.c')
+    open(src, 'w').write('#include "myth_mem_barrier_func.h"\nvoid f_r(void){ myth_rbarrier(); }\nvoid f_w(void){ myth_wbarrier(); }\nvoid f_rw(void){ myth_rwbarrier(); }\n')
+    obj = os.path.join(ctx.work, 'fence_stub.o')
+    inc = '-I%s/include -I%s/src -I%s/vrt %s' % (REPO, REPO, VERIF, ('-I%s/cfg' % lib) if os.path.isdir(lib + '/cfg') else '')
+    rc, o = sh('gcc -O2 -c -w -D_GNU_SOURCE %s %s -o %s && objdump -d %s' % (inc, src, obj, obj), timeout=120)
+    if rc != 0:
+        raise Infra('fence stub: ' + o[-1000:])
+    res = {}
+    cur = None
+    for l in o.split('\n'):
+        m = re.match(r'^[0-9a-f]+ <(f_\w+)>:', l)
+        if m:
+            cur = m.group(1); res[cur] = 'none'
+        elif cur and re.search(r'\b(xchg|mfence|lock)\b', l):
+            res[cur] = 'full'
+    return res.get('f_r', 'none'), res.get('f_w', 'none'), res.get('f_rw', 'none')
+
+
+def wsq_cfg(ctx, base, fr, frw):
+    """copy of a WSQueue configuration with the extracted fence strengths"""
+    t = open(os.path.join(SPEC, base)).read()
+    t = re.sub(r' FenceR = "\w+"', ' FenceR = "%s"' % fr, t)
+    t = re.sub(r' FenceRW = "\w+"', ' FenceRW = "%s"' % frw, t)
+    out = os.path.join(SPEC, 'gen_' + base)
+    open(out, 'w').write(t)
+    return 'gen_' + base
+
+
+def wsq_level_f(ctx, lib):
+    fr, fw, frw = fence_strengths(ctx, lib)
+    ctx.log('fence strengths from object code: rbarrier=%s wbarrier=%s rwbarrier=%s' % (fr, fw, frw))
+    ctx.cov['fence_strengths'] = {'rbarrier': fr, 'wbarrier': fw, 'rwbarrier': frw}
+    cfgs = ['WSQueue_sc1.cfg', 'WSQueue_tso1.cfg'] + ([] if ctx.quick else ['WSQueue_sc2.cfg', 'WSQueue_tso2.cfg'])
+    for c in cfgs:
+        g = wsq_cfg(ctx, c, fr, frw)
+        try:
+            run_design(ctx, 'WSQueue', g, heap='24g' if not ctx.quick else '8g', timeout=7200)
+        finally:
+            os.remove(os.path.join(SPEC, g))
+    # calibration: the TSO configuration must notice a weakened owner/thief fence (otherwise its bounds are too small)
+    if not os.environ.get('VERIF_SKIP_MC'):
+        g = wsq_cfg(ctx, 'WSQueue_tso1.cfg', fr, 'none')
+        r = tlc_design('WSQueue', os.path.join(SPEC, g), coverage=False, heap='8g', timeout=1800)
+        os.remove(os.path.join(SPEC, g))
+        if r['ok'] and frw == 'full':
+            raise Infra('calibration: WSQueue_tso1 does not detect a missing full fence')
+        ctx.cov['design_runs'].append({'module': 'WSQueue', 'cfg': 'WSQueue_tso1.cfg with rwbarrier=none (calibration mutant)', 'result': r['violation'], 'expected': 'violation'})
+    # S->C: strict replay of TLC behaviours, one labelled shared access at a time, in the real queue code
+    unit = os.path.join(BUILD, 'unit_wsq')
+    inc = '-I%s/include -I%s/src %s' % (REPO, REPO, ('-I%s/cfg' % lib) if os.path.isdir(lib + '/cfg') else '')
+    rc, o = sh('gcc -O1 -g -w -D_GNU_SOURCE -DINITIAL_QUEUE_SIZE=4 -DMYTH_WRAP=MYTH_WRAP_VANILLA %s -o %s %s/harness/unit_wsq.c -lpthread' % (inc, unit, VERIF), timeout=300)
+    if rc != 0:
+        raise Infra('unit_wsq build failed: ' + o[-2000:])
+    nb = 0; nsteps = 0
+    for cfg in ('WSQReplay.cfg', 'WSQReplay2.cfg'):
+        meta = os.path.join(BUILD, 'tlc', 'wsr_%d' % os.getpid()); shutil.rmtree(meta, ignore_errors=True)
+        rc, out = java_tlc(['-simulate', 'num=%d' % (60 if ctx.quick else 600), '-depth', '41', '-seed', str(ctx.seed), '-workers', '4', '-metadir', meta, '-config', cfg, 'WSQReplay.tla'],
+                           heap='4g', timeout=1200)
+        shutil.rmtree(meta, ignore_errors=True)
+        bf = os.path.join(ctx.work, 'behaviours_%s.out' % cfg)
+        open(bf, 'w').write(out)
+        if 'BEHAVIOUR' not in out:
+            raise Infra('no behaviours generated by %s: %s' % (cfg, out[-1000:]))
+        rc, o = sh(['python3', os.path.join(VERIF, 'tools', 'wsq_replay.py'), bf, unit], timeout=900)
+        m = re.search(r'behaviours=(\d+) steps=(\d+) failed=(\d+)', o)
+        if not m:
+            ctx.violation('queue unit harness died while replaying specification behaviours (%s): %s' % (cfg, o[-300:]), [bf])
+            continue
+        nb += int(m.group(1)); nsteps += int(m.group(2))
+        if int(m.group(3)) > 0:
+            first = [l for l in o.split('\n') if l.startswith(('DIVERGE', 'MISMATCH'))][:1]
+            ctx.violation('%s of %s specification behaviours of the run queue are not reproduced by the code: %s' % (m.group(3), m.group(1), first), [bf])
+    ctx.cov['behaviours_replayed_into_impl'] = nb
+    ctx.cov['replayed_steps'] = nsteps
+    ctx.cov['traces_validated_against_impl'] += nb
+    ctx.log('S->C %d specification behaviours (%d steps) replayed in the real queue code' % (nb, nsteps))
+    # binding self-test: the same replay against a mutated copy of the queue source must diverge
+    mdir = os.path.join(ctx.work, 'mut'); os.makedirs(mdir, exist_ok=True)
+    src = open(os.path.join(REPO, 'src', 'myth_wsqueue_func.h')).read()
+    mut = src.replace('  if (b < top){\n    myth_wsqueue_rbarrier();\n    ret = q->ptr[b];', '  if (b <= top){\n    myth_wsqueue_rbarrier();\n    ret = q->ptr[b];', 1)
+    if mut == src:
+        raise Infra('bind self-test: mutation site not found in myth_wsqueue_func.h')
+    open(os.path.join(mdir, 'myth_wsqueue_func.h'), 'w').write(mut)
+    rc, o = sh('gcc -O1 -g -w -D_GNU_SOURCE -DINITIAL_QUEUE_SIZE=4 -DMYTH_WRAP=MYTH_WRAP_VANILLA -I%s %s -o %s %s/harness/unit_wsq.c -lpthread' % (mdir, inc, unit + '_mut', VERIF), timeout=300)
+    if rc != 0:
+        raise Infra('mutated unit_wsq build failed: ' + o[-2000:])
+    rc, o = sh(['python3', os.path.join(VERIF, 'tools', 'wsq_replay.py'), os.path.join(ctx.work, 'behaviours_WSQReplay.cfg.out'), unit + '_mut'], timeout=900)
+    m = re.search(r'failed=(\d+)', o)
+    if not m or int(m.group(1)) == 0:
+        raise Infra('bind self-test: the replay does not notice a mutated take() (b <= top)')
+    ctx.cov['bind_selftest'].append({'corruption': 'take(): b <= top in a copy of the source', 'rejected': True, 'behaviours_diverging': int(m.group(1))})
+
+
 def check_C02(ctx):
+    wsq_level_f(ctx, build_lib())
     std_check(ctx, [('MC_Core', 'MC_Core_small.cfg')], gen_queue_prog, 30, 6,
               [('qtake_wrong_thread', mut_first(lambda e: e['e'] == 'QTake' and e['a'][1] > 0, set_arg(1, lambda v: v + 1))),
                ('qpop_duplicate', mut_first(lambda e: e['e'] == 'QPop' and e['a'][1] > 0, lambda evs, i: evs[:i + 1] + [evs[i]] + evs[i + 1:])),
